@@ -82,7 +82,11 @@ def _normalize_parsed_items(
             if isinstance(measure.value, int):
                 scale = field_scaling.get(measure.obis, None)
                 if scale:
-                    dictionary[element_name] = measure.value * (10**scale)
+                    scaled_value = measure.value * (10**scale)
+                    if scale < 0:
+                        # 10**scale is a binary float: round to the transmitted resolution (7 * 10**-2 is 0.07000000000000001)
+                        scaled_value = round(scaled_value, abs(scale))
+                    dictionary[element_name] = scaled_value
                 else:
                     dictionary[element_name] = measure.value
             else:
